@@ -75,6 +75,27 @@ static int foreign( bool verbose, int phy = 0 )
     if ( with_traffic * 0.03 > 45.0 ) { std::printf( "REPRODUCED: connection parameter request never answered, the central's %s stopped the response time out: link still up after %.1f s\n", what, with_traffic * 0.03 ); return 1; }
     return 0;
 }
+// a second procedure started while the first one is not answered must not take the first one's response time out away
+static int shared( bool verbose )
+{
+    ll_t ll;
+    ll.respond_to( 37, valid_connection_request_pdu );
+    ll.ll_empty_pdus( 3 );
+    ll.ll_function_call( [&]{ ll.connection_parameter_update_request( 10, 20, 3, 2 * 20 * 4 ); } );
+    ll.ll_empty_pdus( 3 );
+    bool accepted = false;
+    ll.ll_function_call( [&]{ accepted = ll.phy_update_request_to_2mbit(); } );
+    ll.ll_empty_pdus( 3 );
+    ll.ll_control_pdu( { 0x18, 0x00, 0x00, 0x00, 0x00 } );   // the central answers the PHY request (if one was sent), never the connection parameter request
+    ll.end_of_simulation( bluetoe::link_layer::delta_time::seconds( 70 ) );
+    ll.ll_empty_pdus( 2000 );
+    ll.run( 4 );
+    std::size_t with_traffic = 0;
+    for ( const auto& ev : ll.connection_events() ) if ( !ev.received_data.empty() ) ++with_traffic;
+    if ( verbose ) std::printf( "connection parameter request, then a PHY request (accepted: %d) that is answered, the first request never: %.1f s\n", accepted, with_traffic * 0.03 );
+    if ( with_traffic * 0.03 > 45.0 ) { std::printf( "REPRODUCED: connection parameter request never answered; a PHY request started and answered meanwhile stopped its response time out: link still up after %.1f s\n", with_traffic * 0.03 ); return 1; }
+    return 0;
+}
 // an answered PHY request does not end the link
 static int answered( bool verbose )
 {
@@ -104,6 +125,7 @@ int main( int argc, char** argv )
     rc |= foreign( true, 1 );
     rc |= foreign( true, 2 );
     rc |= answered( true );
+    rc |= shared( true );
     if ( !rc ) std::printf( "not reproduced\n" );
     return rc;
 }
